@@ -1040,3 +1040,68 @@ def _variant_fields(F, var):
         for v in rec.get("variants", []):
             _VF[v.get("name")] = {f.get("name") for f in v.get("fields", [])}
     return _VF.get(var, set())
+
+
+# ------------------------------------------------------------------------------------------------ EFFECT-PARITY (C03)
+PARITY_OWNERS = ("ironcalc_base::types::Workbook", "ironcalc_base::types::Worksheet", "ironcalc_base::types::Styles")
+
+
+def effect_parity(ck, F, rule="EFFECT-PARITY"):
+    """What an operation writes, its replay can write: for every public UserModel operation that records Diff variants, each
+    table of Workbook / Worksheet / Styles in the operation's transitive write effects (evaluation caches and per-user
+    views aside) is also in the write effects of the forward replay arms of those variants.  An operation that extends a
+    table the replay never touches (the operation interns a differential style, the diff only carries its index) leaves
+    every replica without the entry the recorded index points to."""
+    from effects import block_effects
+    P = Program(F)
+    pt = persistent_types(F)
+    b, top, arms = _diff_arms(F, "apply_diff_list")
+    ck.ob(rule, "apply_diff_list|arms", len(arms) >= 40, "apply_diff_list: Diff match not found (anchor lost)", b.file, b.line)
+    be = block_effects(b.rec, F.adts)
+    arm_eff = {}
+    for var, region in arms.items():
+        es = set()
+        for bi in region:
+            t = b.term(bi)
+            if t["k"] == "call":
+                c = b.callee(t)
+                if c in F.heads:
+                    es |= set(P.effects(c))
+            for e, _ in be.get(bi, []):
+                es.add(e)
+        arm_eff[var] = es
+    ev = set()
+    for p in F.find("Model::evaluate"):
+        ev |= set(P.effects(p))
+    n = 0
+    for path in sorted(F.body_paths()):
+        h = F.heads[path]
+        if h.get("impl_adt") != USERMODEL or h.get("bkind") != "fn" or h.get("vis") != "pub":
+            continue
+        variants = set()
+        for q in P.reachable(path) | {path}:
+            if "user_model" not in q or not F.has(q):
+                continue
+            bb = F.body(q)
+            for bi, si, s in bb.stmts():
+                rv = s["rv"]
+                if rv["k"] == "agg" and rv.get("adt") == DIFF:
+                    variants.add(rv["variant"])
+        if not variants:
+            continue
+        op = {e for e in P.effects(path) if e[0] in PARITY_OWNERS and is_persistent_effect(e, pt)}
+        replay = set()
+        for v in variants:
+            replay |= arm_eff.get(v, set())
+        missing = sorted(e for e in op - replay - ev if e[1] not in ("views",))
+        n += 1
+        if not missing:
+            ck.ob(rule, "%s|tables written are tables replayed" % h["name"], True, "", h["file"], h["line"],
+                  sample={"op": h["name"], "variants": sorted(variants)})
+        for e in missing:
+            ck.ob(rule, "%s|%s.%s" % (h["name"], e[0].rsplit("::", 1)[-1], e[1]), False,
+                  "%s writes %s.%s, but the replay arms of the variants it records (%s) cannot: a replica applying the diff never gets that "
+                  "entry, so whatever the diff refers to in that table is missing or different there"
+                  % (h["name"], e[0].rsplit("::", 1)[-1], e[1], ", ".join(sorted(variants))), h["file"], h["line"],
+                  sample={"op": h["name"], "table": "%s.%s" % (e[0].rsplit("::", 1)[-1], e[1])})
+    ck.note("recording_operations", n)
